@@ -162,6 +162,12 @@ func c01Build(in c01In) *WMsg {
 	}
 	for i := range m.Hdrs {
 		if m.Hdrs[i].Name == "Content-Length" {
+			if in.clname == "absent" {
+				// the field is omitted (UDP: the body runs to the end of the datagram). Whether such a message is
+				// relayed at all is not C01's matter; if it is, it must arrive unchanged
+				m.Hdrs = append(m.Hdrs[:i], m.Hdrs[i+1:]...)
+				break
+			}
 			m.Hdrs[i].Name = in.clname
 		}
 	}
@@ -398,7 +404,7 @@ func c01Place(pos string, hs []WHdr) (pre, extra []WHdr) {
 func init() {
 	hv := []string{"absent", "token", "supported-k", "contact-m", "oddcase", "repeat", "empty", "pct", "mix", "utf8", "bin", "big16k", "expires", "subject-s", "ctype-c", "colons", "substate", "maxfwd-dup", "upper"}
 	bodies := []string{"empty", "one", "text", "soup", "sipmsg", "4097", "60k"}
-	cln := []string{"Content-Length", "l", "content-length", "CONTENT-LENGTH", "L"}
+	cln := []string{"Content-Length", "l", "absent", "content-length", "CONTENT-LENGTH", "L"}
 	// (A) content enumeration on the default configuration
 	c01A = &EnumSpec{Feats: []Feat{
 		{Name: "kind", Vals: []string{"request-to-backend", "response", "request-by-route-tcp", "pipelined-tcp"}},
@@ -413,6 +419,10 @@ func init() {
 			return false
 		}
 		if v[s.idx("h1")] == 0 && v[s.idx("pos")] != 0 {
+			return false
+		}
+		// without Content-Length a message can only be delimited by a datagram
+		if s.Val(v, "clname") == "absent" && (s.Val(v, "kind") == "request-by-route-tcp" || s.Val(v, "kind") == "pipelined-tcp") {
 			return false
 		}
 		return true
@@ -506,7 +516,7 @@ func init() {
 		return in
 	}
 	addCheck(&Check{Flows: []flowOracle{flowTransparent}, ID: "C01", Level: "exploration",
-		Rule:   "two complete products on fresh simulated worlds: (A) content: all sequences of 0-2 (thorough 0-3) extension headers over an 18-shape alphabet (compact/odd-case/repeated names, empty value, %, quotes, separators, UTF-8, bytes >= 0x80, 16 KiB value) x position x 7 body classes (incl. NUL/CR/LF soup, SIP-like body, 4097 B, 60 KiB of all byte values) x Content-Length spelling x {request to backend, response, request by Route over TCP}; (B) paths: {backend, Route, static route, response by Via} x arrival UDP/TCP x departure UDP/TCP x received/must-record-route/keep-next-hop x 14 Request-URI forms x methods / status codes x header x body x 5 From/To shapes (mixed-case hosts, decorated URIs, tel/urn, addr-spec form; in-dialog so that dialog identifiers are computed); plus three requests pipelined on one TCP connection; plus an environment fault on TCP departures (the proxy's cached connection to the next hop takes 150 bytes of the write, then breaks: what reaches the next hop on the fresh connection is the whole message); the emission is read by the independent reader; second pass: all cases of one configuration class fed into ONE long-lived world; non-trivial = the message was relayed",
+		Rule:   "two complete products on fresh simulated worlds: (A) content: all sequences of 0-2 (thorough 0-3) extension headers over an 18-shape alphabet (compact/odd-case/repeated names, empty value, %, quotes, separators, UTF-8, bytes >= 0x80, 16 KiB value) x position x 7 body classes (incl. NUL/CR/LF soup, SIP-like body, 4097 B, 60 KiB of all byte values) x Content-Length spelling (and, over UDP, the field omitted: if such a message is relayed it arrives unchanged) x {request to backend, response, request by Route over TCP}; (B) paths: {backend, Route, static route, response by Via} x arrival UDP/TCP x departure UDP/TCP x received/must-record-route/keep-next-hop x 14 Request-URI forms x methods / status codes x header x body x 5 From/To shapes (mixed-case hosts, decorated URIs, tel/urn, addr-spec form; in-dialog so that dialog identifiers are computed); plus three requests pipelined on one TCP connection; plus an environment fault on TCP departures (the proxy's cached connection to the next hop takes 150 bytes of the write, then breaks: what reaches the next hop on the fresh connection is the whole message); the emission is read by the independent reader; second pass: all cases of one configuration class fed into ONE long-lived world; non-trivial = the message was relayed",
 		Assume: []string{"well-formed messages of the stated domain (CRLF, single blanks, explicit Content-Length, no folding)"},
 		Run: func(c *Ctx) {
 			c01A.Run(c)
